@@ -102,6 +102,8 @@ class StackWorld(object):
     self.current_members = set()
     self.peak_outstanding = 0
     self.heal_times = {}
+    self.attempts = {}
+    self.mode_log = {}          # ep index -> [(time, mode)]
 
   # ------------------------------------------------------------------ build
   def module(self):
@@ -128,9 +130,21 @@ class StackWorld(object):
     self.tracker.id_from_args = lambda args, kwargs: srv.call_id_of(None, args)
     world = self
 
+    class LoggingFactory(object):
+      """What the resurrector uses to (re)create its underlying sink; every
+      call is one (re)connection attempt of that resurrector."""
+      def __init__(self, inner):
+        self.inner = inner
+
+      def CreateSink(self, properties):
+        ep = str(properties.get('endpoint'))
+        world.attempts.setdefault(ep, []).append(CLOCK.now)
+        world.loop.note('resurrector.create', ep)
+        return self.inner.CreateSink(properties)
+
     class RecRes(ResurrectorSink.Builder):
       def CreateSink(self, properties):
-        s = ResurrectorSink.Builder.CreateSink(self, properties)
+        s = ResurrectorSink(LoggingFactory(self.next_provider), self.sink_properties, properties)
         world.resurrectors.append(s)
         return s
 
@@ -326,6 +340,10 @@ class StackWorld(object):
         self.serverset.join(m)
       return
     REC.fault('ep_' + do)
+    new_mode = {'crash': 'refuse', 'crash_blackhole': 'blackhole', 'restart': 'up', 'up': 'up',
+                'refuse': 'refuse', 'blackhole': 'blackhole'}.get(do)
+    if new_mode:
+      self.mode_log.setdefault(i, []).append((CLOCK.now, new_mode))
     if do == 'crash':
       ep.set_mode('refuse')
       ep.reset_all()
@@ -333,9 +351,16 @@ class StackWorld(object):
       ep.set_mode('blackhole')
       ep.reset_all(silent=True)
     elif do in ('restart', 'up'):
+      prev = ep.mode
       ep.set_mode('up')
       s.muted = False
-      self.heal_times[i] = CLOCK.now
+      self.heal_times[i] = (CLOCK.now, prev)
+      # a peer that comes back answers packets on connections it no longer
+      # knows with RST
+      for c in ep.conns:
+        if c.established and c.silent and not c.dead:
+          c.silent = False
+          c.server_reset()
     elif do == 'reset':
       ep.reset_all()
     elif do == 'silence':
@@ -397,6 +422,7 @@ class StackWorld(object):
   # --------------------------------------------------------------------- run
   def run(self):
     scn = self.scn
+    self.t_build = CLOCK.now
     self.build()
     base = EPOCH if self.cfg.get('open_timeout') == 0 else CLOCK.now
     # merge timeline (faults before calls at equal times)
@@ -519,7 +545,7 @@ class StackWorld(object):
           REC.violation('C14', 'exception_not_wrapped',
                         'call %s: %s raised to the caller as %s, not as ScalesError carrying it' % (
                           c.id, name, type(obj).__name__))
-      if o == 'neutral':
+      if o == 'neutral' or (o == 'decode_error' and r is None):
         continue
       if r is None:
         REC.violation('C02', 'reply_without_request',
@@ -674,21 +700,88 @@ class StackWorld(object):
                           c.id, exc_name(obj) if kind == 'exc' else 'a value'))
     # (d) no connect attempts after Close
     if self.closed_at is not None:
-      # a call in flight at Close may still reconnect its own connection when
-      # its timeout fires; retries beyond every such deadline are the resurrector's
-      grace = max([0.0] + [c.t + (c.eff_timeout or 0) - self.closed_at for c in tr.order
-                           if c.t <= self.closed_at and
-                           (not c.completions or c.completions[0][0] > self.closed_at)])
+      # Retries create a fresh transport for every attempt.  A transport that
+      # already existed at Close may still make one reconnect of its own (a
+      # request that was in flight on it times out); that is not a retry.
       for ep in self.net.by_index:
         for conn in ep.conns:
           st = conn.started_at
-          if st is not None and st > self.closed_at + grace + 2e-2:
+          born = conn.owner_created_at
+          if st is not None and st > self.closed_at + 1e-6 and (born is None or born > self.closed_at + 1e-6):
             REC.violation('C09', 'connect_after_close',
-                          'connect attempt to %s:%d at %.6f, %.6f s after the client was closed' % (
-                            ep.host, ep.port, st - EPOCH, st - self.closed_at))
+                          'connect attempt to %s:%d at %.6f by a transport created %.6f s after the client was closed' % (
+                            ep.host, ep.port, st - EPOCH, (born or st) - self.closed_at))
             break
     if any(r.state == ChannelState.Closed for r in self.resurrectors):
       REC.probe('node_down')
+    if self.scn.get('focus') == 'c09':
+      self.check_c09_backoff_and_recovery()
+
+  def down_windows(self, i):
+    """[(start, end, mode)] during which endpoint i refused / black-holed connects."""
+    log = [(self.t_build, self.scn['eps'][i].get('mode', 'up'))] + self.mode_log.get(i, [])
+    out = []
+    for k, (t, m) in enumerate(log):
+      if m != 'up':
+        end = log[k + 1][0] if k + 1 < len(log) else CLOCK.now
+        if out and out[-1][1] == t and out[-1][2] == m:
+          out[-1] = (out[-1][0], end, m)
+        else:
+          out.append((t, end, m))
+    return out
+
+  def check_c09_backoff_and_recovery(self):
+    rp = self.cfg['resurrector']
+    init, mx, ex = rp['initial_wait_interval'], rp['max_wait_interval'], rp['backoff_exponent']
+    end_t = self.closed_at if self.closed_at is not None else CLOCK.now
+    for i, s in enumerate(self.servers):
+      key = 'h%d:%d' % (i, 1000 + i)
+      att = self.attempts.get(key, [])
+      lat = self.net.by_index[i].latency
+      for (t0, t1, mode) in self.down_windows(i):
+        t1 = min(t1, end_t)
+        if mode != 'refuse':
+          continue          # a black-holed connect never returns: a single attempt
+        inside = [a for a in att if t0 + 1e-6 < a < t1]
+        gaps = [b - a for a, b in zip(inside, inside[1:])]
+        if len(inside) >= 2:
+          REC.probe('backoff_observed')
+        for k, g in enumerate(gaps):
+          if g > mx + 1.0:
+            REC.violation('C09', 'retry_gap_over_max',
+                          '%s: %.3f s between reconnection attempts %d and %d (max_wait_interval %s)' % (key, g, k, k + 1, mx))
+          if k > 0 and g < gaps[k - 1] - 0.05:
+            REC.violation('C09', 'retry_gap_shrank',
+                          '%s: gaps between reconnection attempts while continuously down: %s' % (
+                            key, ['%.3f' % x for x in gaps]))
+            break
+        if len(gaps) >= 3 and gaps[0] < 0.9 * mx and init ** ex > init * 1.01 and gaps[2] <= gaps[0] + 0.01:
+          REC.violation('C09', 'backoff_not_growing',
+                        '%s: gaps %s do not grow (initial %s, exponent %s, max %s)' % (
+                          key, ['%.3f' % x for x in gaps[:4]], init, ex, mx))
+        # once a retry has failed, the next one follows within max_wait
+        if inside and self.closed_at is None and t1 - inside[-1] > mx + 5.0:
+          REC.violation('C09', 'retries_stopped',
+                        '%s: last reconnection attempt at %.3f, still unreachable until %.3f (max_wait_interval %s)' % (
+                          key, inside[-1] - EPOCH, t1 - EPOCH, mx))
+      # (c) recovery: reachable from heal time to the end, traffic continues
+      heal = self.heal_times.get(i)
+      if heal is None or self.closed_at is not None or i not in self.current_members:
+        continue
+      heal, prev_mode = heal
+      # a connect that was black-holed is only given up by the kernel after 127 s
+      window_start = heal + mx + 1.0 + (128.0 if prev_mode == 'blackhole' else 0.0)
+      calls_in = [c for c in self.tracker.order if c.t >= window_start]
+      if len(calls_in) < 40:
+        continue
+      REC.probe('recovery_window')
+      got = [r for r in s.requests if r.at >= heal]
+      if not got:
+        REC.violation('C09', 'not_used_after_recovery',
+                      '%s became reachable again at %.3f; %d calls were issued later than one max retry interval (%s s) after that, none reached it' % (
+                        key, heal - EPOCH, len(calls_in), mx), {'eps': len(self.servers), 'stack': self.stack})
+      else:
+        REC.probe('resurrected')
 
   def check_c18(self):
     tr = self.tracker
